@@ -91,10 +91,52 @@ func (c *Ctx) genSquareCase(maxChoices []int) sqCase {
 			specs[j] = c.randBlob(ns, n, c.rng.Chance(1, 3))
 			bd = append(bd, fmt.Sprintf("v%d:%d", specs[j].ver, n))
 		}
-		raw := c.makeBlobTx(specs, c.rng.Pick([]int{0, 10, 100, 300, 460, 1000}))
+		// inner-tx sizes: a few classes plus windows in which the wrapped PFB (inner + ~13 bytes) ends
+		// within a few bytes of a compact share boundary (474, 474+478), where the worst-case and the
+		// real index encodings fall on different sides
+		filler := c.rng.Pick([]int{0, 10, 100, 300, 1000})
+		switch c.rng.Intn(4) {
+		case 0:
+			filler = c.rng.Range(440, 470)
+		case 1:
+			filler = c.rng.Range(915, 950)
+		}
+		raw := c.makeBlobTx(specs, filler)
 		btx, _, _ := tx.UnmarshalBlobTx(raw)
 		sc.txs = append(sc.txs, genTx{raw: raw, isBlob: true, inner: btx.Tx, blobs: specs})
 		d = append(d, "b["+strings.Join(bd, " ")+"]")
+	}
+	if c.rng.Chance(1, 6) {
+		// boundary-directed: ordinary txs with lengths on the varint-width boundaries whose
+		// length-prefixed stream ends EXACTLY on a compact share boundary
+		var pre []genTx
+		T := 0
+		for j := c.rng.Range(0, 3); j > 0; j-- {
+			n := c.rng.Pick([]int{1, 126, 127, 128, 129, 300, 16255, 16256, 16383, 16384, 16385})
+			if n > capShares*478/2 {
+				n = c.rng.Pick([]int{1, 126, 127, 128, 129})
+			}
+			pre = append(pre, genTx{raw: c.normalTx(n)})
+			T += n + uvarintLen(n)
+			d = append(d, fmt.Sprintf("t%d", n))
+		}
+		target := 474
+		for target < T+2 {
+			target += 478
+		}
+		if c.rng.Chance(1, 3) {
+			target += 478
+		}
+		r := target - T // bytes the last unit must occupy (prefix included)
+		L := r - 1
+		for L > 0 && L+uvarintLen(L) > r {
+			L--
+		}
+		if L > 0 && L+uvarintLen(L) == r {
+			pre = append(pre, genTx{raw: c.normalTx(L)})
+			d = append(d, fmt.Sprintf("t%d(exact-fill)", L))
+		}
+		sc.txs = append(pre, sc.txs...)
 	}
 	if c.rng.Chance(1, 50) && k > 0 && !sc.txs[0].isBlob {
 		sc.txs[0].raw = nil // empty ordinary tx: outside C02/C09's quantifier
@@ -277,6 +319,12 @@ func (c *Ctx) squareCase(sc sqCase) {
 	side := sq.Size()
 	if !square.IsPowerOfTwo(side) || side > sc.max || side*side != n {
 		fail("C03", fmt.Sprintf("square has %d shares, side %d, maximum %d", n, side, sc.max))
+	}
+	for i := 0; i < n; i++ {
+		if len(raw[i]) != 512 {
+			fail("C03", fmt.Sprintf("share %d of the square has %d bytes, not 512", i, len(raw[i])))
+			return
+		}
 	}
 	for i := 1; i < n; i++ {
 		if bytes.Compare(raw[i-1][:29], raw[i][:29]) > 0 {
